@@ -11,7 +11,7 @@ man = json.load(open("/verif/MANIFEST.json"))
 jsonschema.validate(man, json.load(open("/root/.vp/MANIFEST.schema.json")))
 sch = json.load(open("/root/.vp/EVIDENCE.schema.json"))
 for c in man["checks"]:
-    p = "/verif/" + c["evidence_file"]
+    p = c["evidence_file"] if c["evidence_file"].startswith("/") else "/verif/" + c["evidence_file"]
     try:
         ev = json.load(open(p))
         jsonschema.validate(ev, sch)
